@@ -8,7 +8,7 @@ mkdir -p "$W/repo"; (cd /repo && git archive HEAD) | (cd "$W/repo" && tar xf -)
 cd "$W/repo"
 CRATE=pocket-db; grep -q "pocket-types/tests" "$SD/demo$X.rs" && CRATE=pocket-types
 export CARGO_NET_OFFLINE=true CARGO_TARGET_DIR="$W/target"
-cp "$SD/demo$X.rs" "$CRATE/tests/seed_demo.rs"
+mkdir -p "$CRATE/tests"; cp "$SD/demo$X.rs" "$CRATE/tests/seed_demo.rs"
 # 1. pristine: demo passes
 if ! cargo test --offline -q -p $CRATE --test seed_demo >"$W/p.log" 2>&1; then echo "$SD $X: demo FAILS on pristine tree"; tail -5 "$W/p.log"; exit 1; fi
 # 2. with seed
